@@ -106,6 +106,18 @@ def read_object(mo):
     except Exception as e:  # noqa: BLE001
         out['exposed'] = {'crash': impl.err_name(e).replace('crash:', '')}
     out['carried'] = carried
+    out['carried_views'] = None
+    if carried is not None:
+        # "carried stories / items are exposed with their content": what the element objects answer, not only their XML
+        try:
+            from .access_family import item_view
+            lst = getattr(mo, CARRIED[cls][0])
+            if CARRIED[cls][2] == 'item':
+                out['carried_views'] = {'ok': [item_view(x) for x in lst]}
+            else:
+                out['carried_views'] = {'ok': [{'id': x.id, 'slug': x.slug, 'items': [item_view(i) for i in (x.items or [])]} for x in lst]}
+        except Exception as e:  # noqa: BLE001
+            out['carried_views'] = {'crash': impl.err_name(e).replace('crash:', '')}
     try:
         out['own_document'] = stable_hash(str(mo))       # what the message object itself holds (it must not change by being merged)
     except Exception as e:  # noqa: BLE001
@@ -287,6 +299,45 @@ def sources_check(oc):
                                    'impl': {k_: got.get(k_) for k_ in ('exposed', 'lines', 'crash')}, 'expected': {k_: exp.get(k_) for k_ in ('exposed', 'lines')}})
 
 
+def carried_doc(cls, carried):
+    """The carried elements put into a running-order document of their own (the accessor model reads documents)."""
+    from . import build as B
+    if CARRIED[cls][2] == 'item':
+        return B.ro_doc([B.story('CARRIER', list(carried))])
+    return B.ro_doc(list(carried))
+
+
+def carried_views_of_model(cls, view):
+    st = view['stories']
+    if CARRIED[cls][2] == 'item':
+        return st[0]['items']
+    return [{'id': s['id'], 'slug': s['slug'], 'items': s['items']} for s in st]
+
+
+def carried_content_check(oc, msgs, obs, resps):
+    """Carried stories / items are exposed WITH THEIR CONTENT: the element objects of a message answer (ID, slug, type,
+    object ID, MOS ID, note, the items of a story) what the accessor model reads from the same elements in a document."""
+    from . import lean
+    jobs = []
+    for (lbl, text), o, r in zip(msgs, obs, resps):
+        if r.get('classify_err') or not r.get('shaped') or o.get('carried_views') is None or not o['carried']:
+            continue
+        jobs.append((lbl, text, o))
+    rs = lean.run_batch([{'op': 'access', 'ro': carried_doc(o['cls'], o['carried'])} for _, _, o in jobs])
+    for (lbl, text, o), r in zip(jobs, rs):
+        oc.evaluations += 1
+        if not r['dom']['WfAcc'] or 'view' not in r['model']:
+            oc.count('carried-content:outside-accessor-domain')
+            continue
+        oc.count('carried-content:judged')
+        want = carried_views_of_model(o['cls'], r['model']['view'])
+        got = o['carried_views']
+        if got != {'ok': want}:
+            oc.failing.append({'kind': 'elements-carried', 'text': text, 'label': lbl,
+                               'spec': 'carried stories / items are not exposed with their content (the element objects of the message '
+                                       'answer differently from the carried elements)', 'impl': got, 'model': want})
+
+
 def run_c20(tier, seed):
     from . import lean
     oc = Outcome('C20')
@@ -360,6 +411,7 @@ def run_c20(tier, seed):
                 oc.nontrivial.add(h)
                 if len(oc.samples) < 5 and len(oc.nontrivial) % 173 == 1:
                     oc.samples.append({'label': lbl, 'text': text[:700], 'exposed': o['exposed'], 'inspect': o['lines']})
+    carried_content_check(oc, msgs, obs, resps)
     sources_check(oc)
     oc.rule = ('every message of the G-pos scope (1..n sources, blank/unknown/absent targets), compact and pretty-printed, '
                'plus messages of random histories; non-trivial = schema-shaped message (distinct by text hash)')
@@ -381,6 +433,10 @@ def replay(pid, fl):
         if o['carried'] is not None and o['cls'] in CARRIED:
             exp = expected_carried(o['cls'], TJ.parse(fl['text']))
             bad = bad or (exp is not None and o['carried'] != exp)
+        if o.get('carried_views') is not None and o['carried']:
+            ra = lean.run_batch([{'op': 'access', 'ro': carried_doc(o['cls'], o['carried'])}])[0]
+            if ra['dom']['WfAcc'] and 'view' in ra['model']:
+                bad = bad or o['carried_views'] != {'ok': carried_views_of_model(o['cls'], ra['model']['view'])}
     if r.get('shaped_inspect'):
         if 'ok' in r['lines']:
             r['lines'] = {'ok': ''.join(l + '\n' for l in r['lines']['ok'])}
